@@ -258,6 +258,13 @@ func (fc *funcContext) translateFunctionBody(typ *ast.FuncType, recv *ast.Ident,
 			if isWrapped(fc.typeOf(recv)) {
 				this = "this.$val" // Unwrap receiver value.
 			}
+			switch fc.typeOf(recv).Underlying().(type) {
+			case *types.Struct, *types.Array:
+				// A value receiver is the method's own copy. Call sites copy addressable
+				// operands, but a call through an interface, an embedded field or a
+				// method value reaches this point with the original object.
+				this = fmt.Sprintf("$clone(%s, %s)", this, fc.typeName(fc.typeOf(recv)))
+			}
 			fc.Printf("%s = %s;", fc.translateExpr(recv), this)
 		}
 
